@@ -48,7 +48,7 @@ KNOWN_EXT = {
     "full_like", "isnan", "isfinite", "isinf", "any", "all", "where", "clip", "rint", "round", "searchsorted",
     "concatenate", "roll", "unravel_index", "ravel_multi_index", "reshape", "meshgrid", "interp", "angle",
     "maximum", "minimum", "hypot", "arctan2", "power", "multiply", "add", "subtract", "divide", "true_divide",
-    "mod", "remainder", "fmod", "floor_divide", "logical_and", "logical_or", "logical_not", "dot", "outer",
+    "mod", "remainder", "fmod", "floor_divide", "logical_and", "logical_or", "logical_not", "dot", "outer", "indices",
     "sort", "argsort", "flip", "unique", "tile", "repeat", "stack", "vstack", "hstack", "nan_to_num",
     "datetime64", "timedelta64", "errstate", "dtype", "shape", "size", "ndim", "iscomplex", "isreal",
     "expand_dims", "broadcast_to", "swapaxes", "moveaxis", "take", "nonzero", "count_nonzero", "allclose",
@@ -200,6 +200,15 @@ NUMPY_SIGS = {
 }
 
 
+def _indices_as_unravel(arr, shape, order):
+    """np.indices(S).reshape((len(S), L)) in C order: row d holds, for every flat position 0..L-1, its index along axis d,
+    i.e. np.unravel_index(np.arange(L), S)[d] (for L = prod(S), which numpy requires of the reshape)."""
+    if fname(arr) == "indices" and len(arr.args) == 1 and isinstance(shape, sp.Tuple) and len(shape.args) == 2 \
+            and order == Str("C") and shape.args[0] == op("len", arr.args[0]):
+        return op("unravel_index", op("arange", shape.args[1]), arr.args[0], Str("C"))
+    return None
+
+
 def call_numpy(it, tail, args, kwargs, env, node, chain):
     a = [x for x in args]
     sig = NUMPY_SIGS.get(tail)
@@ -313,7 +322,12 @@ def call_numpy(it, tail, args, kwargs, env, node, chain):
         return op("unravel_index", t[0], t[1], to_term(order))
     if tail == "reshape":
         order = kw(kwargs, "order", "C")
+        r_ = _indices_as_unravel(t[0], t[1], to_term(order))
+        if r_ is not None:
+            return r_
         return op("reshape", t[0], t[1], to_term(order))
+    if tail == "indices" and len(t) >= 1:
+        return op("indices", t[0])
     if tail == "angle":
         return op("angle", t[0])
     if tail == "linalg.norm":
@@ -495,6 +509,9 @@ def call_term_method(it, recv, name, args, kwargs, env, node):
         return op("differentiate", recv, to_term(args[0] if args else kw(kwargs, "coord")))
     if name == "reshape":
         shape = args[0] if len(args) == 1 else tuple(args)
+        r_ = _indices_as_unravel(recv, to_term(shape), to_term(kw(kwargs, "order", "C")))
+        if r_ is not None:
+            return r_
         return op("reshape", recv, to_term(shape), to_term(kw(kwargs, "order", "C")))
     if name == "uniform":
         return op("uniform", recv, *t)
